@@ -184,7 +184,17 @@ def core(ctx, rng, shapes, depth, cap, nrandom):
                           invariants=["CellCountOK", "Involutions", "PermLaws"])
     exported, _ = ctx.tlc_cases(spec, cfg, label="design+pipelines", timeout=1500)
     if len(exported) > cap:
-        exported = rng.sample(exported, cap)
+        # strata that a uniform sample would starve are kept whole (up to a third of the cap each): pipelines with two
+        # transposition steps (compositions of permutations) and concatenations of differently chunked inputs
+        exported.sort(key=lambda x: json.dumps(x["c"], sort_keys=True))
+        two_perms = [x for x in exported if sum(o["op"] in ("perm", "T") for o in x["c"]["pipe"]) >= 2]
+        concatr = [x for x in exported if any(o["op"] == "concatr" for o in x["c"]["pipe"]) and x not in two_perms]
+        keep = []
+        for stratum in (two_perms, concatr):
+            keep += stratum if len(stratum) <= cap // 3 else rng.sample(stratum, cap // 3)
+        kept = {id(x) for x in keep}
+        rest = [x for x in exported if id(x) not in kept]
+        exported = keep + rng.sample(rest, min(len(rest), max(0, cap - len(keep))))
         ctx.exhaustive = False
     else:
         ctx.exhaustive = True
